@@ -1,4 +1,5 @@
 import PW.Proofs.LayoutLemmas
+import PW.Proofs.LayoutWF
 /-!
 # C13 â€” the object graph's bookkeeping is always truthful
 
@@ -66,6 +67,38 @@ theorem unmeasured_still_stored (l : Layout) (M : List Nat) (x : Nat) (hx : x âˆ
   | nil => rw [hfe] at hx'; exact absurd hx' List.not_mem_nil
   | cons a as => rfl
 
+/-- **Invariant under combine / routed actions.** Joining the blocks that hold the addressed
+subsystems keeps "exactly one place, no empty block", and neither loses nor invents a subsystem. -/
+theorem WF_combine (l : Layout) (c : Nat) (T : List Nat) (h : WF l) : WF (combine l c T) :=
+  PW.Layout.WF_combine l c T h
+
+theorem WF_route (l : Layout) (c : Nat) (T : List Nat) (h : WF l) : WF (route l c T) :=
+  PW.Layout.WF_route l c T h
+
+theorem combine_keeps_all_subsystems (l : Layout) (c : Nat) (T : List Nat) (h : WF l) :
+    (allMembers (combine l c T)).Perm (allMembers l) := combine_members_perm l c T h
+
+/-- the invariant holds along every history of combines, routed actions and measurements -/
+inductive Step where
+  | combine (c : Nat) (T : List Nat)
+  | act (c : Nat) (T : List Nat)
+  | measure (M : List Nat)
+
+def step (l : Layout) : Step â†’ Layout
+  | .combine c T => combine l c T
+  | .act c T => route l c T
+  | .measure M => removeMeasured l M
+
+theorem WF_history (l : Layout) (h : WF l) (hist : List Step) : WF (hist.foldl step l) := by
+  induction hist generalizing l with
+  | nil => exact h
+  | cons s hist ih =>
+    apply ih
+    cases s with
+    | combine c T => exact PW.Layout.WF_combine l c T h
+    | act c T => exact PW.Layout.WF_route l c T h
+    | measure M => exact WF_removeMeasured l M h
+
 /-- the public index derived from the partition: (product-space position, tensor position) -/
 def indexOf (l : Layout) (c x : Nat) : Option (Nat Ã— Nat) :=
   let spaces := l.filter (fun b => b.kind == .ps c)
@@ -101,3 +134,7 @@ end PW.Props.C13
 #print axioms PW.Props.C13.WF_removeMeasured
 #print axioms PW.Props.C13.unmeasured_still_stored
 #print axioms PW.Props.C13.index_names_place
+#print axioms PW.Props.C13.WF_combine
+#print axioms PW.Props.C13.WF_route
+#print axioms PW.Props.C13.combine_keeps_all_subsystems
+#print axioms PW.Props.C13.WF_history
